@@ -21,6 +21,12 @@ def claimWorld (fg : Bool) : St :=
              { mk ⟨.xr, "x"⟩ 2 [c08XRFinalizer] false with ref := "ns/c" }],
     nextRv := 3, running := [] }
 
+/-- a terminating claim whose XR does not exist yet (it is created by the first step of the
+witness schedule) -/
+def missWorld : St :=
+  { objs := [{ mk ⟨.claim, "ns/c"⟩ 1 [c08ClaimFinalizer] true with ref := "x" }],
+    nextRv := 2, running := [] }
+
 def xrdWorld : St :=
   { objs := [{ mk ⟨.xrd, "xs.example.org"⟩ 1 [c08DefinedFinalizer] true with ref := "xs.example.org", of := "cs.example.org" },
              { mk ⟨.crd, "xs.example.org"⟩ 2 [] false with owners := [⟨1, true, true⟩] },
